@@ -133,8 +133,24 @@ def run(rep, tier, rng):
                 p = [shapes.f2b(1.0), shapes.f2b(2.0)] + ([z] if d == 4 else []) + ([m] if d >= 3 else [])
                 cases.append([12, code] + p)
                 meta.append(("dims", (code, p)))
+    # ---- shapes as the READER returns them (polylines and multipoints with parts of one or no point, no part at all:
+    # nothing a constructor builds): every X/Y pair, their order and the grouping into lines survive the conversion
+    import files as F
+    import refesri
+    fcases, fmeta = [], []
+    for code in (3, 13, 23, 8, 18, 28):
+        for lens in ([], [1], [0], [2, 1], [1, 3], [2, 0, 2], [3]):
+            if code in refesri.MULTIPOINT:
+                rec = F.gen_rec(rng, code, "finite", max_pts=sum(lens))
+            else:
+                rec = F.gen_rec(rng, code, "finite", lens=lens)
+            m = {"type": code, "box": [0] * 8, "records": [{"num": 1, "shape": rec}, {"num": 2, "shape": {"code": 0}}]}
+            fcases.append([13] + C.pack_bytes(refesri.encode_shp(m)))
+            fmeta.append((code, rec))
     rep.cov["rule"] = ("%d shapes of all 13 types and the null shape (polygons with several outer rings and holes, ring-only and "
-                       "strip/fan multipatches, every sequence of ring kinds of length <= 3) converted to geo-types and back; %d geo-types geometries of every variant (Point, "
+                       "strip/fan multipatches, every sequence of ring kinds of length <= 3) converted to geo-types and back; "
+                       "polylines and multipoints as the reader returns them (parts of one or no point, no part) converted to "
+                       "geo-types; %d geo-types geometries of every variant (Point, "
                        "Line, LineString, Polygon, MultiPoint, MultiLineString, MultiPolygon with holes, GeometryCollection, "
                        "Rect, Triangle; also a one-coordinate LineString) converted to shapes and back; Point/PointM/PointZ x "
                        "measure pool {real, NO_DATA, just above/below, -1e38, NaN, +-inf, f64::MIN} through the geo-traits "
@@ -145,6 +161,33 @@ def run(rep, tier, rng):
     # constructed values of the 'to' shapes (rendered by the main harness)
     rendered = sfv.run_impl(dev, [[2] + sp for sp in to_specs])
     impl = stages.correspondence(rep, "geo", geo, cases, "geo(to / from / dims)")
+    fimpl = stages.correspondence(rep, "geo_file", geo, fcases, "geo(shapes read from a file -> geometry)")
+    nfail_f = 0
+    for c, (code, rec), r in zip(fcases, fmeta, fimpl):
+        msg = None
+        if r[0] != 0 or r[1] != 2:
+            msg = "a conformant file could not be read or converted: %r" % (r[:4],)
+        else:
+            cur = C.Cur(r[2:])
+            if cur.next() != 0:
+                msg = "a %s read from a file was refused" % shapes.TYPE_NAMES[code]
+            else:
+                g = parse_geo(cur)
+                pts = [list(p) for p in rec["pts"]]
+                if code in refesri.MULTIPOINT:
+                    ok = g == ("multipoint", pts)
+                else:
+                    offs = rec["offsets"] + [len(pts)]
+                    ok = g == ("multiline", [pts[a:b] for a, b in zip(offs, offs[1:])])
+                if not ok:
+                    msg = ("X/Y pairs, order or grouping changed converting a %s read from a file (parts of %r points) to geo-types"
+                           % (shapes.TYPE_NAMES[code], [b - a for a, b in zip((rec.get("offsets") or [0]) + [len(pts)], ((rec.get("offsets") or [0]) + [len(pts)])[1:])]))
+                elif cur.next() != 1:
+                    msg = "a null shape read from a file was not refused"
+        if msg:
+            nfail_f += 1
+            if nfail_f == 1:
+                rep.violation({"kind": "oracle", "what": msg, "case_kind": "geo", "case": c})
     nfail, f12, k = 0, 0, 0
     for c, (kind, info), r in zip(cases, meta, impl):
         rep.dist(kind if kind != "from" else "from_" + info[0])
